@@ -15,6 +15,7 @@ import os
 import shutil
 import tempfile
 from urllib.parse import urlparse
+from urllib.request import url2pathname
 
 import dateutil.parser
 from prov import Error, serializers
@@ -2499,6 +2500,12 @@ class ProvDocument(ProvBundle):
                     "WARNING: not saving as location " + "is not a local file reference"
                 )
                 return
+            if scheme == "file":
+                path = url2pathname(path)
+            else:
+                # a plain file name: use it as given ('#', '?' and ';' are
+                # ordinary characters in a file name)
+                path = location
             fd, name = tempfile.mkstemp()
             stream = os.fdopen(fd, "wb")
             serializer.serialize(stream, **args)
